@@ -4,6 +4,23 @@ import time
 import os
 
 
+import threading
+
+
+def _check(z3, s, budget_ms, *assumptions):
+    """s.check() with a hard stop: z3's own timeout is not honoured inside some tactics (nlsat, preprocessing of large
+    nonlinear goals); a timer interrupts the context a little after the budget, which yields `unknown`"""
+    t = threading.Timer(budget_ms / 1000.0 + 3.0, s.ctx.interrupt)
+    t.daemon = True
+    t.start()
+    try:
+        return s.check(*assumptions)
+    except z3.Z3Exception:
+        return z3.unknown
+    finally:
+        t.cancel()
+
+
 def _case_split(z3, smt2, timeout_ms):
     """the goal's skolem index against the index of the element the loop body just processed: three E-matching queries
     (<, ==, >) instead of one; every case must be unsat (a complete case distinction, so this is a proof by cases)"""
@@ -46,7 +63,7 @@ def _case_split(z3, smt2, timeout_ms):
         s.set("mbqi", False)
         s.add(*rest)
         s.add(*extra)
-        return s.check() == z3.unsat
+        return _check(z3, s, timeout_ms) == z3.unsat
     for t in terms[:3]:
         cases = [[]]
         for sk in sks[:2]:
@@ -93,7 +110,7 @@ def _eq_split(z3, fs, sks, timeout_ms):
         s.set("mbqi", False)
         s.add(*fs)
         s.add(*c)
-        if s.check() != z3.unsat:
+        if _check(z3, s, timeout_ms) != z3.unsat:
             return None
     return "%d equality cases on %s" % (len(cases), ", ".join(str(sk) for sk, _ in use))
 
@@ -138,7 +155,7 @@ def _ite_split(z3, fs, ids, timeout_ms):
         s.set("mbqi", False)
         s.add(*fs)
         s.add(*[c if b else z3.Not(c) for c, b in zip(conds, bits)])
-        if s.check() != z3.unsat:
+        if _check(z3, s, timeout_ms) != z3.unsat:
             return None
     return "%d if-then-else cases" % (2 ** len(conds))
 
@@ -194,7 +211,7 @@ def solve(task):
                 s0 = z3.Solver()
                 s0.set("timeout", min(timeout_ms, 3000))
                 s0.add(*pure)
-                if s0.check() == z3.unsat:
+                if _check(z3, s0, min(timeout_ms, 3000)) == z3.unsat:
                     out["verdict"], out["backend"] = "proved", "z3-5.1(api,purified-ground-part,nlsat)"
                     out["seconds"] = round(time.time() - t0, 3)
                     return out
@@ -207,7 +224,7 @@ def solve(task):
         s.set("auto_config", False)
         s.set("mbqi", False)
         s.from_string(smt2)
-        r = s.check()
+        r = _check(z3, s, min(timeout_ms, 3000 if has_split else 20000))
         if r != z3.unsat and has_split:
             try:
                 how = _case_split(z3, smt2, min(timeout_ms, 5000))
@@ -223,12 +240,12 @@ def solve(task):
             s.set("auto_config", False)
             s.set("mbqi", False)
             s.from_string(smt2)
-            r = s.check()
+            r = _check(z3, s, min(timeout_ms, 20000))
         if r != z3.unsat:
             s = z3.Solver()
             s.set("timeout", timeout_ms)
             s.from_string(smt2)
-            r = s.check()
+            r = _check(z3, s, timeout_ms)
         else:
             out["backend"] = "z3-5.1(api,ematching)"
         if r == z3.unsat:
